@@ -512,7 +512,13 @@ Definition check_501 (fs : list field) : verdict :=
         let all := trace_with bits hs (true, true, true, true, true, true) ops in
         let same := match all with Some t => trace_eqb t ops | None => false end in
         match spec_of bits ops with
-        | (VOk, drift) => if drift then VDrift 1 else if same then VOk else VDrift 2
+        | (VOk, drift) =>
+          if drift then VDrift 1 else if same then VOk
+          else (* the repaired code: the simulation with every defect switched off must reproduce it *)
+               match trace_with bits hs (false, false, false, false, false, false) ops with
+               | Some t => if trace_eqb t ops then VOk else VDrift 2
+               | None => VDrift 2
+               end
         | (VSkip, _) => VSkip
         | (VBad code detail, _) =>
           match all with
